@@ -2939,6 +2939,123 @@ def _rehoist(fn, rf, log, q):
     ast.fix_missing_locations(fn)
 
 
+def _split_fused_updates(fn, rf, log, q):
+    """`x = A op e`  ->  `x = A; x op= e` (the second marked as a former
+    plain assignment, exactly what the universal step makes of
+    `x = x op e`) when the reference records for the local x both the
+    definition `A` and the update `op= e`, and the current function lacks
+    that update: a two-step computation whose intermediate the refactoring
+    fused into one expression (usually after naming the intermediate, which
+    the temporary step then inlined).  Sound because A is evaluated before e
+    in both forms and e does not read x."""
+    rdefs = rf.get('defs', {})
+    for _ in range(8):
+        cdefs = _defs_of(fn)
+        done = False
+        for blk in _blocks(fn):
+            for k, st in enumerate(blk):
+                if not (isinstance(st, ast.Assign) and len(st.targets) == 1
+                        and isinstance(st.targets[0], ast.Name)
+                        and isinstance(st.value, ast.BinOp)
+                        and isinstance(st.value.op, (ast.Add, ast.Sub,
+                                                     ast.Mult, ast.Div))):
+                    continue
+                x = st.targets[0].id
+                a_, e_ = st.value.left, st.value.right
+                rd = rdefs.get(x, [])
+                if _n(a_) not in rd or 'aug:' + _n(e_) not in rd:
+                    continue
+                if 'aug:' + _n(e_) in cdefs.get(x, []) or \
+                        _n(st.value) in rd:
+                    continue
+                if x in _names(e_):
+                    continue
+                first = ast.copy_location(ast.Assign(
+                    targets=[ast.Name(id=x, ctx=ast.Store())], value=a_), st)
+                second = ast.copy_location(ast.AugAssign(
+                    target=ast.Name(id=x, ctx=ast.Store()), op=st.value.op,
+                    value=e_), st)
+                second._was_assign = True
+                blk[k:k + 1] = [first, second]
+                log.append('%s: fused update of %s split into `%s = ...` and '
+                           '`%s %s= %s`' % (q, x, x, x, {
+                               ast.Add: '+', ast.Sub: '-', ast.Mult: '*',
+                               ast.Div: '/'}[type(st.value.op)], _n(e_)))
+                done = True
+                break
+            if done:
+                break
+        if not done:
+            break
+    ast.fix_missing_locations(fn)
+
+
+def _always_bool(e):
+    """Expressions whose value is a genuine bool whatever the operands:
+    identity and membership tests, `not <anything>`."""
+    if isinstance(e, ast.UnaryOp) and isinstance(e.op, ast.Not):
+        return True
+    return isinstance(e, ast.Compare) and len(e.ops) == 1 and isinstance(
+        e.ops[0], (ast.Is, ast.IsNot, ast.In, ast.NotIn))
+
+
+def _flags_to_conditionals(fn, rf, log, q):
+    """`T = <test>`  ->  `T = False; if <test>: T = True` for an attribute /
+    subscript flag T when the reference has an else-less, jump-free
+    `if <test>:` and stores into T, and the current function has no `if` on
+    that test: a default-plus-conditional flag written as a boolean
+    expression.  <test> must always yield a bool (identity / membership test
+    or a negation) and must not read T."""
+    ref_tests = {t[0] for t in rf.get('tests', []) if not t[1] and not t[2]}
+    ref_stores = set(rf.get('stores', []))
+    if not ref_tests or not ref_stores:
+        return
+    for _ in range(8):
+        cur_tests = {_n(st.test) for st, _b, _i in _ifs_in_order(fn)}
+        done = False
+        for blk in _blocks(fn):
+            for k, st in enumerate(blk):
+                if not (isinstance(st, ast.Assign) and len(st.targets) == 1
+                        and isinstance(st.targets[0], (ast.Attribute,
+                                                       ast.Subscript))):
+                    continue
+                tgt, test = st.targets[0], st.value
+                ttext = _n(test)
+                if _n(tgt) not in ref_stores or ttext not in ref_tests or \
+                        ttext in cur_tests or not _always_bool(test):
+                    continue
+                gtext = _n(tgt)
+                if any(isinstance(x, ast.expr) and _n(x) == gtext
+                       for x in ast.walk(test)):
+                    continue
+                # T is stored nowhere else in the function (the recorded
+                # form has exactly the default and the conditional store)
+                others = [n for n in _own_nodes(fn) if isinstance(
+                    n, (ast.Attribute, ast.Subscript)) and isinstance(
+                        n.ctx, (ast.Store, ast.Del)) and n is not tgt
+                    and _n(n) == gtext]
+                if others:
+                    continue
+                default = ast.copy_location(ast.Assign(
+                    targets=[copy.deepcopy(tgt)],
+                    value=ast.Constant(value=False)), st)
+                setter = ast.copy_location(ast.Assign(
+                    targets=[tgt], value=ast.Constant(value=True)), st)
+                cond = ast.copy_location(ast.If(
+                    test=test, body=[setter], orelse=[]), st)
+                blk[k:k + 1] = [default, cond]
+                log.append('%s: boolean flag `%s = %s` restored to default '
+                           'False + `if %s: ... = True`'
+                           % (q, gtext, ttext, ttext))
+                done = True
+                break
+            if done:
+                break
+        if not done:
+            break
+    ast.fix_missing_locations(fn)
+
+
 def _temps_and_names(fn, rf, log, q):
     params, locs = local_order(fn)
     ref_locs = rf.get('locals', [])
@@ -3180,6 +3297,8 @@ def canonicalise(tree, modname, text=None):
         _temps_and_names(fn, rf, log, q)
         _rehoist(fn, rf, log, q)
         _index_to_unpack(fn, rf, log, q)
+        _split_fused_updates(fn, rf, log, q)
+        _flags_to_conditionals(fn, rf, log, q)
         _restore_bool_returns(fn, rf, log, q)
         _conjunction_ifs(fn, rf, log, q)
         _orient_ifs(fn, rf, log, q)
